@@ -396,7 +396,7 @@ package graphql
 // fragments); nil union values are filled with nil directly.
 //@ func resolveUnionBatch
 //@   requires typ != nil && selectionSet != nil && len(destinations) >= len(sources)
-//@   keeps Union, SelectionSet, []*Fragment, Fragment, map[string][]interface{}, map[string][]*outputNode, map[string]*Object
+//@   keeps Union, SelectionSet, []*Fragment, Fragment, map[string][]interface{}, map[string][]*outputNode, map[string]*Object, map[narrowedFragment]*Fragment
 //@   ghost nobj map[string]int          // calls of resolveObjectBatch per member type
 //@   entry ghost nobj = constmap(nobj, 0)
 //@   call outputNode.Fill assert arg0 == destinations[idx] && arg1 == nil
@@ -404,13 +404,29 @@ package graphql
 //@   call resolveObjectBatch assert arg2 == typ.Types[srcType]
 //@   call resolveObjectBatch assert arg4 == destinationsByType[srcType]
 //@   call resolveObjectBatch assert arg3 != nil && arg3.Selections == selectionSet.Selections      // the selections made on the union itself (__typename) reach every member, also one no fragment applies to (defect s23)
+//@   call memberFragment assert arg0 == typ && arg1 == srcType && arg3 == narrowed && fragment.On == typ.Name      // a fragment on the union itself is narrowed to the member at hand (defect s32)
 //@   call resolveObjectBatch ghost nobj[srcType] = nobj[srcType] + 1
 //@   loop 1 invariant forall t string :: len(sourcesByType[t]) == len(destinationsByType[t]) && ((t in sourcesByType) ==> (t in typ.Types))
 //@   loop 2 invariant forall t string :: len(sourcesByType[t]) == len(destinationsByType[t]) && ((t in sourcesByType) ==> (t in typ.Types))
 //@   loop 3 invariant forall t string :: (visited[t] ==> nobj[t] == 1) && (!visited[t] ==> nobj[t] == 0)
 //@   loop 3 invariant forall t string :: len(sourcesByType[t]) == len(destinationsByType[t]) && ((t in sourcesByType) ==> (t in typ.Types))
 //@   loop 4 invariant applicable != nil && fresh(applicable) && applicable.Selections == selectionSet.Selections
+//@   loop 3 invariant narrowed != nil && okNarrowed(narrowed)
+//@   loop 4 invariant narrowed != nil && okNarrowed(narrowed)
 //@   ensures err == nil ==> forall t string :: (t in sourcesByType) ==> nobj[t] == 1
+
+// (defect s32) a fragment on the union itself is narrowed to the member at hand: the narrowed fragment is on that member
+// and keeps the directives of the original (C19), and it is built once per (member, fragment) however often it is spread (C15).
+//@ pred okNarrowed(m map[narrowedFragment]*Fragment) = forall k narrowedFragment :: (k in m) ==> m[k] != nil && allocated(m[k]) && m[k].On == k.member && k.fragment != nil && allocated(k.fragment) && m[k].Directives == k.fragment.Directives
+//@ func memberFragment
+//@   requires typ != nil && fragment != nil && narrowed != nil && okNarrowed(narrowed)
+//@   assume fragment.SelectionSet != nil          // the parser gives every fragment a selection set
+//@   keeps Fragment, Union
+//@   call mapupdate assert !(arg1 in narrowed) && arg1.member == member && arg1.fragment == fragment && arg2 == result
+//@   call memberFragment assert arg0 == typ && arg1 == member && arg2 == nested && arg3 == narrowed
+//@   ensures result != nil && result.On == member && result.Directives == fragment.Directives
+//@   ensures okNarrowed(narrowed)
+//@   loop 1 invariant okNarrowed(narrowed) && result != nil && fresh(result) && result.On == member && selectionSet != nil && fresh(selectionSet)
 
 // ---- C16: a failing field records its own error under its own path, first error wins.
 //@ func outputNode.Fail
@@ -475,11 +491,13 @@ package graphql
 // non-null wrappers are validated against their element type with the same selection set.
 //@   ensures err == nil && (typ is *Scalar || typ is *Enum) ==> selectionSet == nil
 //@   ensures err == nil && (typ is *Object || typ is *Union) ==> selectionSet != nil
-//@   call prepareQuery#1 assert marked && arg1 == any(graphqlTyp) && fragment.On == typString && arg2 == fragment.SelectionSet
-//@   call prepareQuery#2 assert marked && (selection.Name in typ.Fields) && selection.Name != "__typename" && arg1 == typ.Fields[selection.Name].Type && arg2 == selection.SelectionSet
-//@   call prepareQuery#3 assert marked && arg1 == any(typ) && arg2 == fragment.SelectionSet
-//@   call prepareQuery#4 assert arg1 == typ.Type && arg2 == selectionSet
+// (a fragment on the union itself applies to every member: its contents are validated as selections on the union again - defect s32)
+//@   call prepareQuery#1 assert marked && fragment.On == typ.Name && arg1 == any(typ) && arg2 == fragment.SelectionSet
+//@   call prepareQuery#2 assert marked && arg1 == any(graphqlTyp) && fragment.On == typString && arg2 == fragment.SelectionSet
+//@   call prepareQuery#3 assert marked && (selection.Name in typ.Fields) && selection.Name != "__typename" && arg1 == typ.Fields[selection.Name].Type && arg2 == selection.SelectionSet
+//@   call prepareQuery#4 assert marked && arg1 == any(typ) && arg2 == fragment.SelectionSet
 //@   call prepareQuery#5 assert arg1 == typ.Type && arg2 == selectionSet
+//@   call prepareQuery#6 assert arg1 == typ.Type && arg2 == selectionSet
 //@   call dynamic assert arg0 == selection.UnparsedArgs
 // C19: what a union hands down to its member fragments is the __typename selection itself - alias, directives and all
 //@   call append#1 assert selection.Name == "__typename" && arg0 == fragment.SelectionSet.Selections && arg1[0] == selection
@@ -495,8 +513,8 @@ package graphql
 //@   ghost vsel map[int]bool
 //@   ghost vfrag map[int]bool
 //@   call isNilArgs#2 ghost vsel[rangeindex+1] = true
-//@   call prepareQuery#2 ghost vsel[rangeindex+1] = true
-//@   call prepareQuery#3 ghost vfrag[rangeindex+1] = true
+//@   call prepareQuery#3 ghost vsel[rangeindex+1] = true
+//@   call prepareQuery#4 ghost vfrag[rangeindex+1] = true
 //@   loop 5 invariant forall k int :: 0 <= k && k <= rangeindex ==> vsel[k]
 //@   loop 6 invariant forall k int :: 0 <= k && k <= rangeindex ==> vfrag[k]
 // field.ParseArguments (built by schemabuilder from the argument struct) works on the JSON arguments only
